@@ -266,48 +266,129 @@ theorem pinned_defaultCache_witness :
 
 /-! ### rest/httpx.Parse -/
 
+/-- `httpx.ParsePath` alone: an accepted request satisfies the constraints of the `path` fields against the path variables -/
+theorem parsePath_sound (fs : Fields) (p : Obj) (v : VFields) (h : httpParsePath false fs p = .ok v) :
+    satFields (httpCfgPath false) (viewFields "path".toList fs) p v = true :=
+  unmFields_sound _ rfl _ _ _ h
+
+/-- `httpx.ParseForm` alone, against what `GetFormValues` keeps of the form values -/
+theorem parseForm_sound (fs : Fields) (f : List (Str × List Str)) (v : VFields) (h : httpParseForm false fs f = .ok v) :
+    satFields (httpCfgForm false) (viewFields "form".toList fs) (formParams f) v = true :=
+  unmFields_sound _ rfl _ _ _ h
+
+/-- `httpx.ParseHeaders` / `encoding.ParseHeaders` alone, against the header map with zero, one or several values per key -/
+theorem parseHeaders_sound (fs : Fields) (hd : List (Str × HVals)) (v : VFields) (h : httpParseHeaders false fs hd = .ok v) :
+    satFields (httpCfgHeader false) (viewFields "header".toList fs) (headerParams hd) v = true :=
+  unmFields_sound _ rfl _ _ _ h
+
+/-- `httpx.ParseJsonBody` alone (no body = the empty object) -/
+theorem parseJsonBody_sound (fs : Fields) (b : Option J) (v : VFields) (h : httpParseJsonBody false fs b = .ok v) :
+    satisfies (httpCfgJson false) (.struct (viewFields "json".toList fs)) (b.getD (.obj [])) (.struct v) = true := by
+  have e4 : "json".toList = ['j', 's', 'o', 'n'] := rfl
+  rw [e4]
+  unfold httpParseJsonBody at h
+  split at h
+  · rename_i v4 h4
+    cases h
+    exact accept_sound (httpCfgJson false) rfl _ _ _ h4
+  · simp at h
+  · simp at h
+
+/-! ### `encoding.ParseHeaders`: scalar or slice, by the number of values of the key -/
+
+/-- **parseHeaders_no_panic (general form)** — whatever decision `scalar` and index `idx` the loop body of `ParseHeaders`
+uses, it never panics on any value list (nil, empty, one, several values) **iff** the decision only says "scalar" for
+lengths that the index is inside of. -/
+theorem headerEntryG_no_panic_iff (scalar : Int → Bool) (idx : Int) :
+    (∀ vs : HVals, headerEntryG scalar idx vs ≠ .error .panic)
+      ↔ (∀ n : Nat, scalar n = true → 0 ≤ idx ∧ idx < n) := by
+  constructor
+  · intro h n hn
+    have h1 := h (some (List.replicate n []))
+    simp only [headerEntryG, HVals.len, List.length_replicate, hn, if_true, goIndex] at h1
+    by_cases hneg : idx < 0
+    · simp [hneg, Except.map] at h1
+    · simp only [hneg, if_false, Option.getD_some] at h1
+      refine ⟨by omega, ?_⟩
+      by_cases hlt : idx < n
+      · exact hlt
+      · have : (List.replicate n ([] : Str))[idx.toNat]? = none := by
+          apply List.getElem?_eq_none; simp; omega
+        simp [this, Except.map] at h1
+  · intro h vs
+    unfold headerEntryG
+    by_cases hs : scalar vs.len = true
+    · obtain ⟨h0, h1⟩ := h _ hs
+      simp only [hs, if_true, goIndex]
+      have hneg : ¬ idx < 0 := by omega
+      simp only [hneg, if_false]
+      have hlen : idx.toNat < (vs.getD []).length := by
+        cases vs with
+        | none => simp [HVals.len] at h1; omega
+        | some l => simp [HVals.len] at h1 ⊢; omega
+      rw [List.getElem?_eq_getElem hlen]
+      simp [Except.map]
+    · simp [hs]
+
+/-- **parseHeaders_no_panic** — the loop body as written (`len(v) == 1` ⇒ `v[0]`, else the slice) is total: for a header
+key with zero values (nil or empty slice), one value or several, it yields `headerVal`, never a panic. -/
+theorem headerEntry_total (vs : HVals) : headerEntry vs = .ok (headerVal vs) := by
+  cases vs with
+  | none => rfl
+  | some l =>
+    match l with
+    | [] => rfl
+    | [v] => rfl
+    | a :: b :: rest =>
+      have hne : ¬ (((a :: b :: rest).length : Nat) : Int) = 1 := by simp; omega
+      simp only [headerEntry, headerEntryG, headerScalar, HVals.len, headerVal, hne, decide_false]
+      rfl
+
+theorem headerEntry_no_panic (vs : HVals) : headerEntry vs ≠ .error .panic := by
+  rw [headerEntry_total]; simp
+
+/-- the flipped decision (`len(v) > 1` ⇒ slice, else `v[0]`) panics on a key without values: the general theorem is not vacuous -/
+example : (match headerEntryG (fun n => !decide (n > 1)) 0 none with | .error .panic => true | _ => false) = true
+    ∧ (match headerEntryG (fun n => !decide (n > 1)) 0 (some []) with | .error .panic => true | _ => false) = true := by
+  constructor <;> decide
+
+/-- a header key with zero values reaches the unmarshaller as a slice: a scalar field is rejected, a slice field takes
+the empty slice, an optional field does not mask it -/
+example :
+    (match httpParseHeaders false (.cons "A".toList (some "header|a,optional".toList) (.prim .string) .nil) [("a".toList, some [])] with
+     | .error .notString => true | _ => false) = true
+    ∧ (match httpParseHeaders false (.cons "A".toList (some "header|a".toList) (.slice (.prim .string)) .nil) [("a".toList, some [])] with
+       | .ok (.cons _ (.list .nil) .nil) => true | _ => false) = true
+    ∧ (match httpParseHeaders false (.cons "A".toList (some "header|a".toList) (.slice (.prim .string)) .nil) [("a".toList, none)] with
+       | .ok (.cons _ .nil .nil) => true | _ => false) = true := by
+  refine ⟨?_, ?_, ?_⟩ <;> decide +kernel
+
 /-- **httpParse_sound** — `httpx.Parse` (path, form, header and JSON-body unmarshalers on one request struct): if the
 request is accepted, the result is the merge of four per-source results each of which satisfies the declared constraints
 of the fields of its source against that source's parameters (`GetFormValues` / `ParseHeaders` views included). -/
-theorem httpParse_sound (fs : Fields) (p : Obj) (f h : List (Str × List Str)) (b : Option J) (vs : VFields)
-    (hp : httpParse false fs p f h b = .ok vs) :
+theorem httpParse_sound (fs : Fields) (p : Obj) (f : List (Str × List Str)) (h : List (Str × HVals)) (b : Option J)
+    (vs : VFields) (hp : httpParse false fs p f h b = .ok vs) :
     ∃ v1 v2 v3 v4, vs = mergeViews fs v1 v2 v3 v4
       ∧ satFields (httpCfgPath false) (viewFields "path".toList fs) p v1 = true
       ∧ satFields (httpCfgForm false) (viewFields "form".toList fs) (formParams f) v2 = true
       ∧ satFields (httpCfgHeader false) (viewFields "header".toList fs) (headerParams h) v3 = true
       ∧ satisfies (httpCfgJson false) (.struct (viewFields "json".toList fs)) (b.getD (.obj [])) (.struct v4) = true := by
-  have e1 : "path".toList = ['p', 'a', 't', 'h'] := rfl
-  have e2 : "form".toList = ['f', 'o', 'r', 'm'] := rfl
-  have e3 : "header".toList = ['h', 'e', 'a', 'd', 'e', 'r'] := rfl
-  have e4 : "json".toList = ['j', 's', 'o', 'n'] := rfl
-  rw [e1, e2, e3, e4]
   unfold httpParse at hp
-  cases h1 : unmFields (httpCfgPath false) (viewFields ['p', 'a', 't', 'h'] fs) p with
+  cases h1 : httpParsePath false fs p with
   | error e => simp [h1] at hp
   | ok v1 =>
-    cases h2 : unmFields (httpCfgForm false) (viewFields ['f', 'o', 'r', 'm'] fs) (formParams f) with
+    cases h2 : httpParseForm false fs f with
     | error e => simp [h1, h2] at hp
     | ok v2 =>
-      cases h3 : unmFields (httpCfgHeader false) (viewFields ['h', 'e', 'a', 'd', 'e', 'r'] fs) (headerParams h) with
+      cases h3 : httpParseHeaders false fs h with
       | error e => simp [h1, h2, h3] at hp
       | ok v3 =>
-        cases h4 : unmarshal (httpCfgJson false) (.struct (viewFields ['j', 's', 'o', 'n'] fs)) (b.getD (.obj [])) with
+        cases h4 : httpParseJsonBody false fs b with
         | error e => simp [h1, h2, h3, h4] at hp
-        | ok v =>
-          have hs := accept_sound (httpCfgJson false) rfl _ _ _ h4
-          cases v with
-          | struct v4 =>
-            simp [h1, h2, h3, h4] at hp
-            exact ⟨v1, v2, v3, v4, hp.symm, unmFields_sound _ rfl _ _ _ h1, unmFields_sound _ rfl _ _ _ h2,
-              unmFields_sound _ rfl _ _ _ h3, hs⟩
-          | bool x => simp [h1, h2, h3, h4] at hp
-          | int x => simp [h1, h2, h3, h4] at hp
-          | flt x => simp [h1, h2, h3, h4] at hp
-          | str x => simp [h1, h2, h3, h4] at hp
-          | nil => simp [h1, h2, h3, h4] at hp
-          | ptr x => simp [h1, h2, h3, h4] at hp
-          | list x => simp [h1, h2, h3, h4] at hp
-          | map x => simp [h1, h2, h3, h4] at hp
+        | ok v4 =>
+          simp [h1, h2, h3, h4] at hp
+          exact ⟨v1, v2, v3, v4, hp.symm, parsePath_sound fs p v1 h1, parseForm_sound fs f v2 h2,
+            parseHeaders_sound fs h v3 h3, parseJsonBody_sound fs b v4 h4⟩
 
 /-- non-vacuity: a request with a path variable, a multi-valued form field in bracket notation with an empty value, a header and a defaulted JSON field -/
 example :
@@ -316,8 +397,31 @@ example :
         (.cons "C".toList (some "form|c,optional".toList) (.slice (.prim (.int 64)))
         (.cons "D".toList (some "header|x-d,optional".toList) (.prim .string)
         (.cons "E".toList (some "json|e,default=3".toList) (.prim (.int 64)) .nil))))
-        [("a".toList, .str "5".toList)] [("c[]".toList, ["1".toList, [], "2".toList])] [("x-d".toList, ["v".toList])] none with
+        [("a".toList, .str "5".toList)] [("c[]".toList, ["1".toList, [], "2".toList])] [("x-d".toList, some ["v".toList])] none with
      | .ok (.cons _ (.int 5) (.cons _ (.list (.cons (.int 1) (.cons (.int 2) .nil))) (.cons _ (.str _) (.cons _ (.int 3) .nil)))) => true
      | _ => false) = true := by decide +kernel
+
+/-! ### round 4: the YAML front end (internal/encoding.YamlToJson, reached through `UnmarshalYamlBytes` and `conf.LoadFromYamlBytes`): a YAML null is the empty string -/
+
+def yamlNullTy : Ty :=
+  .struct (.cons "A".toList (some "a,optional".toList) (.prim (.int 64))
+          (.cons "B".toList (some "b".toList) (.prim .string) .nil))
+def yamlNullDoc : J := .obj [("a".toList, .null), ("b".toList, .str "x".toList)]
+
+/-- DOMAIN RESTRICTION, decided in round 4 (not a defect): the YAML front end hands a YAML null (`key:`, `key: null`,
+`key: ~`) on as the empty *string* (`Model.yamlNulls true`, internal/encoding.toStringKeyMap → `lang.Repr(nil)`); configurations
+with `Pass:` / `Name:` lines rely on it and upstream keeps it.  A null is not a correctly typed value of an int field, so
+such a document is outside the quantifier of the converse clause for YAML bodies and YAML configuration.  The theorem
+records the consequence exactly: the JSON form `{"a":null,"b":"x"}` is complete and accepted; the same document through the
+YAML front end reaches the unmarshaller as `{"a":"","b":"x"}` and is rejected (type mismatch — replayed:
+`conf.LoadFromYamlBytes("a:\nb: x\n")` into `A int json:"a,optional"`); a front end that kept the null (the patch kept under
+fixes/not-applied/) would accept it.  The driver's model of the front end is `yamlNulls true`: a change of the behaviour is
+a correspondence mismatch. -/
+theorem yaml_null_witness :
+    complete {} yamlNullTy yamlNullDoc = true
+    ∧ (match unmarshal {} yamlNullTy yamlNullDoc with | .ok _ => true | _ => false) = true
+    ∧ (match unmarshal {} yamlNullTy (yamlNulls true yamlNullDoc) with | .error .mismatch => true | _ => false) = true
+    ∧ (match unmarshal {} yamlNullTy (yamlNulls false yamlNullDoc) with | .ok _ => true | _ => false) = true := by
+  refine ⟨?_, ?_, ?_, ?_⟩ <;> decide +kernel
 
 end GoZero.C08.Props
